@@ -34,5 +34,40 @@ Erase(G, k, v) ==
       [] v.t = "rec" -> [t |-> "map", kv |-> [i \in 1..Len(v.es) |-> <<n.fields[i].n, Erase(G, n.fields[i].t, v.es[i])>>]]
       [] v.t = "un" -> Erase(G, n.variants[v.b + 1], v.x)
 
-Shown(G, v, hints) == IF hints = "any" THEN Erase(G, 1, v) ELSE v
+(***************************************************************************)
+(* Decimals under the integer hints of a typed target (deserialize_u64 /    *)
+(* i64 / u128 / i128 on a decimal node): with scale 0 the unscaled value is *)
+(* shown as the narrowest of the asked-for kind that holds it, as i128 when *)
+(* it is negative or too large for it, and - for u64 only - as its text     *)
+(* when it is positive and does not fit; with any other scale, as its text. *)
+(* A shown value: [t |-> "dshown", via, w (8 limbs, two's complement), txt].*)
+(***************************************************************************)
+NoTxt == <<>>
+DShown(via, w) == [t |-> "dshown", via |-> via, w |-> w, txt |-> NoTxt]
+DText(v) == [t |-> "dshown", via |-> "str", w |-> W128Zero, txt |-> DecText(v.v, v.s)]
+HighZero(w) == w[5] = 0 /\ w[6] = 0 /\ w[7] = 0 /\ w[8] = 0
+FitsI64(w) == IF w[4] >= 32768 THEN w[5] = 65535 /\ w[6] = 65535 /\ w[7] = 65535 /\ w[8] = 65535 ELSE HighZero(w)
+DecShown(v, mode) ==
+    LET w == BE16ToW128(v.v)  neg == IsNeg128(w) IN
+    IF v.s # 0 THEN DText(v)
+    ELSE CASE mode = "u64" -> IF ~neg /\ HighZero(w) THEN DShown("u64", w) ELSE IF neg THEN DShown("i128", w) ELSE DText(v)
+           [] mode = "i64" -> IF FitsI64(w) THEN DShown("i64", w) ELSE DShown("i128", w)
+           [] mode = "u128" -> IF ~neg THEN DShown("u128", w) ELSE DShown("i128", w)
+           [] OTHER -> DShown("i128", w)
+
+RECURSIVE ShowDec(_, _)
+ShowDec(v, mode) ==
+    CASE v.t = "dec" -> DecShown(v, mode)
+      [] v.t \in {"arr", "rec"} -> [v EXCEPT !.es = [i \in 1..Len(v.es) |-> ShowDec(v.es[i], mode)]]
+      [] v.t = "map" -> [v EXCEPT !.kv = [i \in 1..Len(v.kv) |-> <<v.kv[i][1], ShowDec(v.kv[i][2], mode)>>]]
+      [] v.t = "un" -> [v EXCEPT !.x = ShowDec(v.x, mode)]
+      [] OTHER -> v
+
+Shown(G, v, hints) ==
+    CASE hints = "any" -> Erase(G, 1, v)
+      [] hints = "dec_u64" -> ShowDec(v, "u64")
+      [] hints = "dec_i64" -> ShowDec(v, "i64")
+      [] hints = "dec_u128" -> ShowDec(v, "u128")
+      [] hints = "dec_i128" -> ShowDec(v, "i128")
+      [] OTHER -> v
 =============================================================================
